@@ -47,7 +47,7 @@ def cfgs():
     add("T13-psk-declined", srv_rsa, cli_rsa + " psk13=1", "ver=T13", "ver=T13", fam="T13")
     # the client's only key share is for a group the server does not support: HelloRetryRequest, second ClientHello
     add("T13-hrr", srv_rsa, cli_rsa, "ver=T13 groups=24", "ver=T13 groups=23,24 shares=1", fam="T13")
-    add("T13-hrr-early-resumed", srv_rsa, cli_rsa, "ver=T13 early=16384 groups=24", "ver=T13 sid=R groups=23,24 shares=1", resume=True, fam="T13", early=True, honest=False)
+    add("T13-hrr-early-resumed", srv_rsa, cli_rsa, "ver=T13 early=16384 groups=24", "ver=T13 sid=R groups=23,24 shares=1", resume=True, fam="T13", early=True)
     # the server refuses the early data and its limit (40) lies between the largest early record (30) and their sum (42)
     add("T13-early-rejected-overlimit", srv_rsa + " psk13=1 early=16384", cli_rsa + " psk13=1 early=16384", "ver=T13 early=40", "ver=T13", fam="T13", early=True, honest=False)
     add("T13cap-neg12", srv_rsa, cli_rsa, "ver=T12", "ver=T11,T12,T13", fam="L")
